@@ -19,6 +19,31 @@ def check(run):
         crules.model_rules(run, "C03-model", ast, parts=("pf", "iter", "vp"))
         crules.merge_rules(run, "C03-model", None, ast)
         crules.phase_rules(run, "C03-model", ast)
+    # the pointer update stores through is the definition container's own `next`: detected for every container that has one
+    from .. import e3
+    nu = e3.Unit("c03_next", """
+#include <yorel/yomm2/core.hpp>
+#include <yorel/yomm2/symbols.hpp>
+using namespace yorel::yomm2;
+namespace c03n {
+struct A { virtual ~A() {} };
+using M = method<void, int(virtual_<A&>)>;
+struct Plain { static M::next_type next; static int fn(A&); };
+struct NoDefault { NoDefault() = delete; static M::next_type next; static int fn(A&); };
+struct Crtp : M::next<Crtp> { static int fn(A&); };
+struct CrtpNoDefault : M::next<CrtpNoDefault> { CrtpNoDefault() = delete; static int fn(A&); };
+struct None { static int fn(A&); };
+struct Wrong { static int next; static int fn(A&); };
+}
+using namespace c03n;
+""")
+    for c, has in (("Plain", True), ("NoDefault", True), ("Crtp", True), ("CrtpNoDefault", True), ("None", False), ("Wrong", False)):
+        nu.add("has_next|%s" % c, "definition container %s: add_definition %s its next pointer" % (c, "registers" if has else "has none to register"),
+               "static_assert(std::is_base_of_v<M::add_definition_<%s, %s>, M::add_definition<%s>>);" % (c, "true" if has else "false", c))
+    run.rule("C03-wiring", "add_definition hands the container's `next` (of the method's next_type) to the registration, whatever else the container is (not default-constructible, CRTP helper)", floor=6)
+    for ob, ok, msg in e3.run_unit(run, "C03-wiring", nu):
+        if not ok:
+            run.violation("C03-wiring", ob["key"], "%s: %s" % (ob["desc"], msg), "include/yorel/yomm2/detail.hpp")
     run.assumptions += ["that best() returns the most specific elements of its argument for every lattice is a value computed by a graph algorithm: not decided",
                         "the pointer registered as info.next is the definition's own `next` variable (macros / add_definition): type-level, see C20 add_definition witnesses"]
     return run.finish(level="other", explanation="AST decision tables (path enumeration over a finite abstract domain) for is_base and for the selection of the value "
